@@ -257,6 +257,56 @@ func (g *gen) textSource(allowWS bool) string {
 	return s
 }
 
+// unbalancedSource draws the source of a text run with UNBALANCED mustache braces: an opening
+// {{ that is never closed (or a lone }}, "{ {", "{{{"), with escaped specials before and after
+// it. Such braces are plain text, so everything around them must stay escaped. After the
+// opener the run contains no "}}"; callers make sure that the run is a text node of its own
+// (its neighbours are elements), so no later text can close it by accident.
+func (g *gen) unbalancedSource() string {
+	specials := []string{"&lt;b&gt; bold &lt;/b&gt;", "&amp;", "&amp;amp;", "1 &lt; 2", "&gt;", "&lt;", "a &amp;&amp; b", "&amp;lt;", "x &lt;i&gt;", "&lt;!-- c --&gt;", "word", "AT&amp;T"}
+	var sb strings.Builder
+	if g.chance("ubpre", 2) {
+		sb.WriteString(g.pick("ubp", specials) + g.pick("ubs", []string{" ", "", "\n  "}))
+	}
+	if g.chance("ubbal", 4) {
+		sb.WriteString(escText(g.pick("ubm", []string{"{{ name }}", "{{ a < b }}", "{{ x && y }}"}), true) + " ")
+	}
+	if g.chance("ubclose", 4) {
+		sb.WriteString("}} " + g.pick("ubp2", specials) + " ")
+	}
+	sb.WriteString(g.pick("ubopen", []string{"{{", "{{ x", "Type {{ to open", "{{{", "{{ a &lt; b", "{{ {{", "{{ x }", "{{ &amp;", "{ {", "}}", "{{x"}))
+	k := g.n("ubk", 1, 3)
+	for i := 0; i < k; i++ {
+		sb.WriteString(g.pick("ubs2", []string{" ", " ", "", "\n"}) + g.pick("ubq", specials))
+	}
+	if g.chance("ubtail", 3) {
+		sb.WriteString(g.pick("ubt", []string{" }", " {", " {{", "."}))
+	}
+	return sb.String()
+}
+
+// unbalancedBlock places an unbalanced run where the formatter has a separate text path: as the
+// only child (inline rendering), between block children (block-mode text), between inline
+// children (inline rendering with siblings), inside <pre> (with and without element children).
+func (g *gen) unbalancedBlock() *node {
+	txt := &node{isText: true, text: g.unbalancedSource()}
+	el := func(tag string) *node { return &node{tag: tag, inline: true, kids: []*node{{isText: true, text: "x"}}} }
+	switch g.n("ubwhere", 0, 5) {
+	case 0:
+		return &node{tag: g.pick("ubtag", []string{"p", "div", "h2", "span", "li", "blockquote"}), inline: true, kids: []*node{txt}}
+	case 1:
+		return &node{tag: "div", kids: []*node{el("p"), txt, el("p")}}
+	case 2:
+		return &node{tag: "section", inline: true, kids: []*node{txt, el("div")}}
+	case 3:
+		return &node{tag: "p", inline: true, kids: []*node{el("b"), txt, el("i")}}
+	case 4:
+		return &node{tag: "pre", rawBody: g.pick("ubprelead", []string{"", "  ", "<code>x</code>"}) + txt.text + g.pick("ubpretail", []string{"", "\n", "<b>y</b>"})}
+	default:
+		return &node{tag: "div", inline: true, kids: []*node{el("span"), txt, &node{tag: "br", void: true}, {isText: true, text: "after }}"}}}
+	}
+}
+
 func (g *gen) text(allowWS bool) *node { return &node{isText: true, text: g.textSource(allowWS)} }
 
 func (g *gen) comment() *node {
@@ -681,7 +731,7 @@ func (g *gen) flow(depth int, fb forbid, max int) []*node {
 }
 
 func (g *gen) block(depth int, fb forbid) *node {
-	kind := g.n("bk", 0, 24)
+	kind := g.n("bk", 0, 26)
 	if depth <= 0 && kind < 6 {
 		kind = 6
 	}
@@ -792,6 +842,8 @@ func (g *gen) block(depth int, fb forbid) *node {
 		return n
 	case 23:
 		return g.title()
+	case 24, 25:
+		return g.unbalancedBlock()
 	default: // block inside a link (valid in HTML5): inline element that must be laid out as a block
 		if fb.a {
 			return g.text(false)
